@@ -428,26 +428,52 @@ func (w *world) fabricate(h1 uint64, lastID types.BlockID, commit *types.Commit,
 // canonical one by changing a header field (so that it is another block):
 // the recover flag, the time or the coinbase. Nothing is re-executed.
 func (w *world) fabricateFirst(h uint64, variant int) *blk {
-	if variant%3 == 0 && !recoverFlagSafe() {
+	if variant%firstVariants == 0 && !recoverFlagSafe() {
 		w.c.Probe("recover-flag-block-not-sent")
 		variant = 1
 	}
 	return w.fabricateFirstRaw(h, variant)
 }
 
+const firstVariants = 5
+
 func (w *world) fabricateFirstRaw(h uint64, variant int) *blk {
 	b := clone(w.canon[h].b)
 	label := ""
-	switch variant % 3 {
+	v := variant % firstVariants
+	if v == 3 && h < 2 {
+		v = 4
+	}
+	switch v {
 	case 0:
 		b.Header.Recover = 1
 		label = "alt:recover-flag"
 	case 1:
 		b.Header.Time++
 		label = "alt:time-tweaked"
-	default:
+	case 2:
 		b.Header.Coinbase[0] ^= 0x55
 		label = "alt:coinbase-tweaked"
+	case 3:
+		// the canonical header (same block hash) over another LastCommit: the
+		// precommits of the previous block re-signed in the next round
+		prev := w.commits[h-1]
+		vals := w.valsAt[h-1]
+		on := make([]bool, vals.Size())
+		for i, pc := range prev.Precommits {
+			on[i] = pc != nil
+		}
+		b.LastCommit = w.commitBy(vals, w.canon[h-1].id, h-1, w.rounds[h-1]+1, time.Unix(int64(w.times[h-1]), 0).UTC(), on)
+		w.noteCommit(b.LastCommit, "alt-quorum")
+		label = "alt:same-hash-other-last-commit"
+	default:
+		// the canonical header (same block hash) over other evidence
+		if len(b.Evidence.Evidence) > 0 {
+			b.Evidence.Evidence = append(b.Evidence.Evidence, b.Evidence.Evidence[0])
+		} else {
+			b.Evidence.Evidence = append(b.Evidence.Evidence, &types.FaultValidatorsEvidence{BlockHeight: h, Round: 0, Proposer: w.keys[0].PubKey()})
+		}
+		label = "alt:same-hash-other-evidence"
 	}
 	return w.register(clone(b), label)
 }
